@@ -18,7 +18,7 @@ MANIFEST = dict(
           "random long ones, and with gboost::result_t driven like the boosting loop. Linear and gradient-boosting models "
           "are fitted on small random datasets (losses, weak-learner pools, shrinkage, subsampling, wscale, folds, both "
           "tuners/splitters) and every stored statistic is recomputed by predicting with the stored model."),
-    note=("Coq kernel; translator (19 kernels); extraction with ExtrOCamlFloats/ExtrOCamlInt63 (binary64 = OCaml floats); "
+    note=("Coq kernel; translator (18 kernels); extraction with ExtrOCamlFloats/ExtrOCamlInt63 (binary64 = OCaml floats); "
           "harness + OCaml driver; the fitting pipeline (solvers) is an oracle: searched, not proved; statistics compared "
           "within 1e-9 relative (Eigen reductions, merged learners), monitor compared bit-exactly."),
     technique="Coq proof over a translated+extracted model, exhaustive bit-exact differential correspondence, implementation-side recomputation",
@@ -86,6 +86,16 @@ def run(tier, replay=None):
         r.violation("crash", {"kind": "implementation crash / abnormal exit of the harness", "exit": rc, "mode": tier,
                               "stderr": err[-2000:], "last_operations": [t[:600] for t in tail],
                               "replay_cmd": "VERIF_SEED=%d %s %s" % (r.seed, exe, tier)}, fingerprint="crash")
+    # a NaN standard deviation stored for finite per-sample values (tensor_t::variance rounding negative; repaired in /repo by
+    # b0b87e4) has its own fingerprint so that it can be listed as a known finding on trees without the repair
+    nan_fail = [l for l in impl_fail if l.startswith("FAIL STDEVNAN")]
+    impl_fail = [l for l in impl_fail if not l.startswith("FAIL STDEVNAN")]
+    nan_fail.sort(key=lambda l: (0 if "fitted fold" in l else 1, len(l)))   # a fitted fold first, then the bare constant vector
+    nan_fail = nan_fail[:1] + [l for l in nan_fail[1:] if "fitted fold" not in l][:1] + nan_fail[1:]
+    for i, l in enumerate(nan_fail[:2]):
+        r.violation("stdevnan-%d" % i, {"kind": "reported statistics: stored m_stdev is NaN although every per-sample value is finite",
+                                        "case": l, "replay_cmd": "VERIF_SEED=%d %s %s fit | grep STDEVNAN" % (r.seed, exe, tier)},
+                    fingerprint="stdev-nan")
     for i, l in enumerate(impl_fail[:3]):
         r.violation("impl-%d" % i, {"kind": "direct property check failed on the implementation", "case": l,
                                     "replay_cmd": "VERIF_SEED=%d %s %s | grep ^FAIL" % (r.seed, exe, tier)})
@@ -120,7 +130,7 @@ def run(tier, replay=None):
                         no_input=not impl_fail)
     vlib.handle_coq_failure(r, cres)
     vlib.proof_coverage(r, cres, "make -C coq theories/Properties_C11.vo && coqc theories/Properties_C11.v (Print Assumptions)",
-                        ["tools/translate.py (19 kernels of early_stopping.cpp, gboost/util.cpp, gboost/result.cpp, machine/result.cpp, machine/tune.cpp)",
+                        ["tools/translate.py (18 kernels of early_stopping.cpp, gboost/util.cpp, gboost/result.cpp, machine/result.cpp, machine/tune.cpp)",
                          "extraction: ExtrOcamlBasic + ExtrOCamlFloats + ExtrOCamlInt63 (binary64 and uint63 mapped to OCaml's native ones; Z/nat extracted as inductives)",
                          "PrimFloat = IEEE-754 binary64 as computed by g++ -O2 on x86-64 SSE2 (no -ffast-math) for +, -, /, <",
                          "ocaml/c11_driver.ml, harness/c11_gboost.cpp (independent oracles, tolerance 1e-9 relative for recomputed statistics)"])
@@ -141,10 +151,9 @@ def run(tier, replay=None):
     cov["mismatches"] = len(mism)
     cov["stored_history_failures"] = len(propf)
     cov["impl_direct_failures"] = len(impl_fail)
+    cov["stdev_nan_failures"] = len(nan_fail)
     cov["samples"] = [s for k in ("ES", "LOOP", "GBH", "FIT") for s in samples.get(k, [])][:8]
     cov["exhaustive"] = True
-    # not a C11 violation but visible in the reported statistics: see notes/C11.md (defect candidate in tensor_t::variance)
-    cov["observations"] = [l[:500] for l in _grep(outf, ("NOTE ",), limit=3)]
     cov["unproved_clauses_searched"] = [
         "stored per-trial/per-fold and final error/loss statistics (mean, stdev, count, 9 percentiles) equal those recomputed by "
         "predicting with the stored fold/final model on the fold's train/validation samples (implementation-side, 1e-9 relative)",
@@ -153,15 +162,18 @@ def run(tier, replay=None):
         "number of weak learners of a fold model = its kept round (exactly for non-merging pools, <= otherwise)",
         "final boosting model predicts bias + sum of weak learners and the average of the fold models of the optimum trial; "
         "optimum trial = first minimum of the mean validation error; linear refit stored in extra() is the model",
-        "ml::result_t store/extra/stats read back what was stored for every (trial, fold) (slot arithmetic itself is proved)"]
+        "ml::result_t store/extra/stats read back what was stored for every (trial, fold) (slot arithmetic itself is proved)",
+        "statistics of constant per-sample vectors (ml::result_t::store on n equal values, n = 2..12 x 40 values + seeded ones, and fits on "
+        "constant targets): mean = the value, deviation 0 within tolerance and never NaN, count, percentiles"]
     cov["excluded_inputs"] = ["NaN error values in monitor histories (payload/sign of NaN is not compared)",
                               "size_t wrap-around of m_round + patience (patience <= 1000 by the parameter's range)"]
     r.assumptions = ["binary64 arithmetic of the scalar code in early_stopping.cpp / gboost/util.cpp is IEEE-754 round-to-nearest (x86-64 SSE2, no fast-math)",
                      "k-fold / random splitters are deterministic in their seed (used to recover the folds' samples)",
                      "the fitting pipeline (solvers, weak-learner fitting) is an oracle; recomputed statistics are compared within 1e-9 relative",
                      "0/1 classification errors are compared only when no output is within 1e-6 of a decision boundary",
-                     "the stdev statistic of a (nearly) constant error/loss vector is rounding noise or NaN (one-pass variance in tensor.h): "
-                     "not compared there, occurrences counted in harness_counters.nan_stdev_near_constant",
+                     "stored m_stdev is compared on every vector (constant ones included) with the two-pass recomputation within "
+                     "2e-7*(1+max|x|) (error bound of the library's one-pass variance); not comparable only when a value is non-finite or beyond "
+                     "1e150 (harness_counters.stdev_not_comparable)",
                      "diverged fold/final models (a contribution beyond 1e6 for unit-scale targets, or cancellation by more than 4 orders of "
                      "magnitude) are excluded from the floating-point recomputation (counted in harness_counters.illconditioned_models_skipped); "
                      "the exact checks (stored history vs monitor, learners kept) still apply to them"]
